@@ -37,6 +37,7 @@ from .values import (
     CallbackVal,
     DObj,
     ElemRef,
+    ExtObj,
     Func,
     IntSeq,
     LObj,
@@ -421,6 +422,8 @@ def subscript(ex, o, i):
             return dict_getitem(ex, o, ho, i)
         if isinstance(ho, MObj):
             return map_getitem(ex, o, ho, i)
+        if isinstance(ho, ExtObj):
+            return ho.ext_subscript(ex, o, i)
         if isinstance(ho, Obj):
             return obj_special(ex, o, '__getitem__', [i])
     if isinstance(o, (bytes, bytearray)) and isinstance(i, int):
